@@ -223,6 +223,16 @@ func RunPlan(pr *Profile, p *Plan, keep bool) *Outcome {
 			}
 		}
 		if os.Getenv("VERIF_DEBUG") != "" {
+			if w.Client != nil {
+				if st, ok := gohbase.VerifSnapshot(w.Client); ok {
+					for _, r := range st.Regions {
+						fmt.Fprintf(os.Stderr, "CACHE %q table=%q [%q,%q) id=%d dead=%v unavailable=%v client=%q\n", r.Name, r.Table, r.Start, r.Stop, r.ID, r.Dead, r.Unavailable, r.ClientAddr)
+					}
+				}
+			}
+			for _, r := range c.Regions {
+				fmt.Fprintf(os.Stderr, "MODEL %q [%q,%q) state=%v server=%d\n", r.Name, r.Start, r.Stop, r.State, r.Server)
+			}
 			for _, g := range simrt.Live() {
 				fmt.Fprintf(os.Stderr, "LIVE %v parked=%v\n", g, g.Parked())
 			}
